@@ -103,7 +103,7 @@ def match_known(pid, ob, known):
     return None
 
 
-def native(pid, mode, payload=None, timeout=3600):
+def native(pid, mode, payload=None, timeout=int(os.environ.get("GVC_NATIVE_TIMEOUT", "1500"))):
     """run the native (real jax) harness of a property in a subprocess"""
     cmd = [PY, "-m", f"gvc.native.{pid.lower()}", mode]
     env = dict(os.environ)
